@@ -213,4 +213,8 @@ Fixpoint alias_loop (fuel:nat) (i:Z) (basename ext:list Z) (taken:list (list Z))
   end.
 Definition make_8dot3 (n:namerec) (es:list dirent) : res (list Z * list Z) :=
   let taken := map (fun e => sfn_display (d_name e)) (ge_dirs es ++ ge_files es) in
-  alias_loop (Z.to_nat 1000001) 0 (map_chars (n_base n)) (map_chars (n_ext n)) taken.
+  let b := map_chars (n_base n) in
+  let e := map_chars (n_ext n) in
+  (* a name that is an extension only (" .a"): the extension is the stem and there is no extension (D37) *)
+  let '(b, e) := match b with [] => (e, []) | _ => (b, e) end in
+  alias_loop (Z.to_nat 1000001) 0 b e taken.
